@@ -29,11 +29,16 @@ func (r layoutRow) String() string {
 }
 
 // describeValue names the origin of a value written by an encoder.
-func describeValue(v ssa.Value) string {
+func describeValue(v ssa.Value) string { return describeValueD(v, 0) }
+
+func describeValueD(v ssa.Value, d int) string {
+	if d > 12 {
+		return "..."
+	}
 	v = strip(v)
 	switch x := v.(type) {
 	case *ssa.Convert:
-		return describeValue(x.X)
+		return describeValueD(x.X, d+1)
 	case *ssa.UnOp:
 		if x.Op == token.MUL {
 			if fn := fieldName(x.X); fn != "" {
@@ -42,7 +47,7 @@ func describeValue(v ssa.Value) string {
 			if a, ok := x.X.(*ssa.Alloc); ok {
 				st := allocStores(a)
 				if len(st) == 1 {
-					return describeValue(st[0])
+					return describeValueD(st[0], d+1)
 				}
 			}
 			if g := globalLoad(x); g != "" {
@@ -53,7 +58,7 @@ func describeValue(v ssa.Value) string {
 		return fieldName(x)
 	case *ssa.Call:
 		if b, ok := x.Call.Value.(*ssa.Builtin); ok && b.Name() == "len" {
-			return "len(" + describeValue(x.Call.Args[0]) + ")"
+			return "len(" + describeValueD(x.Call.Args[0], d+1) + ")"
 		}
 		if k := calleeKey(&x.Call); k != "" {
 			return k + "()"
@@ -61,18 +66,21 @@ func describeValue(v ssa.Value) string {
 	case *ssa.Parameter:
 		return "param:" + x.Name()
 	case *ssa.Const:
+		if x.Value == nil {
+			return "zero"
+		}
 		return x.Value.String()
 	case *ssa.BinOp:
-		return describeValue(x.X) + x.Op.String() + describeValue(x.Y)
+		return describeValueD(x.X, d+1) + x.Op.String() + describeValueD(x.Y, d+1)
 	case *ssa.Phi:
 		var ps []string
 		for _, e := range x.Edges {
-			ps = append(ps, describeValue(e))
+			ps = append(ps, describeValueD(e, d+1))
 		}
 		sort.Strings(ps)
 		return "phi{" + strings.Join(ps, ",") + "}"
 	case *ssa.Slice:
-		return "slice(" + describeValue(x.X) + ")"
+		return "slice(" + describeValueD(x.X, d+1) + ")"
 	case *ssa.FieldAddr:
 		return fieldName(x)
 	case *ssa.Global:
@@ -80,7 +88,7 @@ func describeValue(v ssa.Value) string {
 	case *ssa.Alloc:
 		st := allocStores(x)
 		if len(st) == 1 {
-			return describeValue(st[0])
+			return describeValueD(st[0], d+1)
 		}
 		return "local:" + x.Comment
 	}
